@@ -50,6 +50,11 @@ func validateEnums(env *Environment, errorSink *validation.ErrorSink) *Environme
 		if enum.BaseType == nil {
 			baseType = PrimitiveInt32
 		} else {
+			if len(errorSink.Errors) > 0 {
+				// The base type might be unresolved or part of a reference cycle, which has been reported
+				return
+			}
+
 			underlyingType := GetUnderlyingType(enum.BaseType)
 			switch bt := underlyingType.(type) {
 			case *SimpleType:
